@@ -140,6 +140,37 @@ class Cx:
         self.axioms.append(z3.And(g(f(t)) == t, isb(f(t))))
         return f(t)
 
+    def box_str(self, t):
+        f = z3.Function("box_str", StrS, Val)
+        g = z3.Function("unbox_str", Val, StrS)
+        self.axioms.append(g(f(t)) == t)
+        return f(t)
+
+    def box_tuple(self, ts):
+        n = len(ts)
+        f = z3.Function("mk_tuple%d" % n, *([Val] * n + [Val]))
+        r = f(*ts)
+        for i, t in enumerate(ts):
+            self.axioms.append(z3.Function("tuple%d_item%d" % (n, i), Val, Val)(r) == t)     # injectivity
+        return r
+
+    def resolve_ref(self, v, st):
+        """An opaque element that the path condition identifies with a known heap object is that object."""
+        if not isinstance(v, VElem):
+            return v
+        rv = getattr(self, "_ref_vals", {})
+        for oid, tok in rv.items():
+            if oid not in st.heap:
+                continue
+            s = z3.Solver()
+            s.set("timeout", 1500)
+            s.add(*self.axioms)
+            s.add(*st.pc)
+            s.add(v.t != tok)
+            if s.check() == z3.unsat:
+                return VRef(oid)
+        return v
+
     def box_bool(self, t):
         f = z3.Function("box_bool", z3.BoolSort(), Val)
         g = z3.Function("unbox_bool", Val, z3.BoolSort())
@@ -223,7 +254,8 @@ class Cx:
         return self.consts[name]
 
     def distinct_consts_axiom(self):
-        ts = [c.t for c in self.consts.values()]
+        # named singletons (None, Undefined, ...) and the identity tokens of heap objects are pairwise different objects
+        ts = [c.t for c in self.consts.values()] + list(getattr(self, "_ref_vals", {}).values())
         return [z3.Distinct(*ts)] if len(ts) > 1 else []
 
     # -- feasibility --------------------------------------------------------
@@ -315,6 +347,10 @@ def as_val(cx, v, st):
         return cx.ref_val(v)
     if isinstance(v, VFunc) and getattr(v, "val", None) is not None:
         return v.val
+    if isinstance(v, VStr) and v.t is not None:
+        return cx.box_str(v.t)
+    if isinstance(v, VTuple):
+        return cx.box_tuple([as_val(cx, x, st) for x in v.items])
     raise Unsupported("cannot store %r in a container of opaque items" % (v,))
 
 
@@ -606,9 +642,15 @@ class Interp:
             return z3.BoolVal(any(exc_isa(exc.cname, n) for n in names))
         return z3.Or(*[self.cx.exc_isa_sym(exc.sym, n) for n in names])
 
+    def loop_ordinal_of(self, s):
+        """ordinal of a loop statement: its position among the loops of the function in source order (static)"""
+        ids = self.cx.__dict__.setdefault("loop_ids", {})
+        if id(s) not in ids:
+            ids[id(s)] = len(ids)
+        return ids[id(s)]
+
     def s_For(self, s, st):
-        ordinal = self.cx.loop_ordinal
-        self.cx.loop_ordinal += 1
+        ordinal = self.loop_ordinal_of(s)
 
         def k(it, st2):
             return self.for_loop(s, ordinal, it, st2)
@@ -650,8 +692,7 @@ class Interp:
         return self.assign(s.target, items[i], st, body)
 
     def s_While(self, s, st):
-        ordinal = self.cx.loop_ordinal
-        self.cx.loop_ordinal += 1
+        ordinal = self.loop_ordinal_of(s)
         if self.cx.on_loop is not None:
             r = self.cx.on_loop(self, s, ordinal, None, st)
             if r is not None:
@@ -830,6 +871,12 @@ class Interp:
         return self.ev(e.left, st, lambda a, s1: self.ev(e.right, s1, lambda b, s2: self.binop(e.op, a, b, s2, k)))
 
     def binop(self, op, a, b, st, k):
+        if isinstance(a, VIdx) or isinstance(b, VIdx):
+            # an index that may be an int or a slice: arithmetic on the slice alternative is a TypeError
+            x = a if isinstance(a, VIdx) else b
+            as_int_val = lambda v: VInt(v.i) if v is x else v
+            return self.cx.branch(st, x.is_slice, lambda s1: raise_(s1, "TypeError", origin=("slice-arithmetic",)),
+                                  lambda s2: self.binop(op, as_int_val(a), as_int_val(b), s2, k))
         ia, ib = _as_int(a), _as_int(b)
         if ia is not None and ib is not None:
             if isinstance(op, ast.Add):
@@ -914,6 +961,8 @@ class Interp:
     # -- attribute access -----------------------------------------------------
     def getattr(self, obj, name, st, k):
         cx = self.cx
+        if isinstance(obj, VElem) and getattr(cx, "_ref_vals", None) and name not in cx.elem_attrs:
+            obj = cx.resolve_ref(obj, st)
         if isinstance(obj, VRef):
             h = st.heap[obj.oid]
             if name in h.fields:
